@@ -23,7 +23,8 @@ EXPLANATION = (
     "two), evaluated abstractly over the eight JSON kinds: a test that is too narrow drops valid enum values from the merged "
     "type; (D6) each keyword is combined in the direction of an intersection: upper bounds (`max*`) by min, lower bounds "
     "(`min*`) by max, `uniqueItems` by or, `required` by union, type lists by intersection, and both operands of each "
-    "combination are the *same* member of the two schemas."
+    "combination are the *same* member of the two schemas; (D7) a call inside a binary merge that is handed members of both "
+    "operands is handed the same members of each (`f(a.x, a.y, b.x, b.y)`, never `f(a.x, a.y, b.x, a.y)`)."
 )
 ASSUMPTIONS = ["the pairwise merge functions compute intersections (not decided)"]
 
@@ -45,6 +46,7 @@ def run(facts, rep, tier):
     run_d4(facts, rep, tier)
     run_d5(facts, rep, tier)
     run_d6(facts, rep, tier)
+    run_d7(facts, rep, tier)
     # ------------------------------------------------------------ consumption of Result<_, ()>
     n = 0
     for h in c.user_fns():
@@ -93,7 +95,9 @@ def run(facts, rep, tier):
             elif par.get("k") == "let":
                 # bound to a name: find a match on that name
                 nm = par["pat"].get("name")
-                ms = [m for m, _ in nodes(h["body"], "match") if src(m["scrut"]) == nm]
+                from lib import uses_of_let
+                us_ = uses_of_let(h, par)
+                ms = [m for m, _ in nodes(h["body"], "match") if any(strip_refs(m["scrut"]) is u_ for u_ in us_)]
                 if ms:
                     errs = [a for a in ms[0]["arms"] if psrc(a["pat"]).startswith("Err(")]
                     s = src(errs[0]["body"]) if errs else ""
@@ -131,11 +135,13 @@ def run(facts, rep, tier):
             ok = False
             how = "result is not bound"
             if nm:
-                tests = [i for i, _ in nodes(h["body"], "if") if i["cond"].get("k") == "letx" and "Schema::Bool(false)" in psrc(i["cond"]["pat"]) and nm in src(i["cond"]["init"])]
+                from lib import uses_of_let
+                us_ = uses_of_let(h, par) if par.get("k") == "let" else [u_ for u_, _ in walk(h["body"]) if u_.get("k") == "path" and u_.get("res") == "local" and u_.get("path") == nm]
+                tests = [i for i, _ in nodes(h["body"], "if") if i["cond"].get("k") == "letx" and "Schema::Bool(false)" in psrc(i["cond"]["pat"]) and any(contains_node(i["cond"]["init"], u_) or strip_refs(i["cond"]["init"]) is u_ for u_ in us_)]
                 if tests and any(q in calls_in(tests[0]["then"]) for q in never):
                     ok, how = True, "`if let Schema::Bool(false) = &%s { convert_never }`" % nm
                 else:
-                    conv = [y for y, _ in walk(h["body"]) if y.get("k") in ("call", "mcall") and y.get("fn", "").endswith("TypeSpace::convert_schema") and nm in src(y.get("args", []))]
+                    conv = [y for y, _ in walk(h["body"]) if y.get("k") in ("call", "mcall") and y.get("fn", "").endswith("TypeSpace::convert_schema") and any(contains_node(a_, u_) or strip_refs(a_) is u_ for a_ in y.get("args", []) for u_ in us_)]
                     if conv:
                         ok, how = True, "`%s` is converted by convert_schema, whose `false` arm builds the uninhabited type" % nm
             rep.ob("C09.W1", "false-reaches-never:" + key, ok, how if ok else "Schema::Bool(false) from merge_all in %s does not reach the uninhabited type (%s)" % (h["fn"], how), x.get("sp"))
@@ -262,9 +268,20 @@ def run_d(facts, rep, tier):
     rep.floor("C09.D2", "one-sided case pairs in binary merges", n2, 1)
 
 
-def anon_pat(p):
-    """pattern text with binder names anonymised"""
+def anon_pat(p, binders=False):
+    """pattern text with binder names anonymised (binders=True: keep the fact that a sub-pattern is bound, as `@`)"""
     k = p.get("k")
+    if binders:
+        if k == "bind":
+            return "@" + ("_" if not p.get("sub") else anon_pat(p["sub"], True))
+        if k == "tuple":
+            return "(" + ",".join(anon_pat(x, True) for x in p["pats"]) + ")"
+        if k == "or":
+            return "|".join(sorted(anon_pat(x, True) for x in p["pats"]))
+        if k == "tstruct":
+            return p["path"].split("::")[-1] + "(" + ",".join(anon_pat(x, True) for x in p["pats"]) + ")"
+        if k == "struct":
+            return p["path"].split("::")[-1] + "{" + ",".join("%s:%s" % (n, anon_pat(x, True)) for n, x in sorted(p["fields"], key=lambda z: z[0])) + "}"
     if k == "bind":
         return "_" if not p.get("sub") else anon_pat(p["sub"])
     if k == "wild":
@@ -306,9 +323,21 @@ def run_d3(facts, rep, tier):
                     if q.get("k") == "tuple" and len(q["pats"]) == 2:
                         alts.add((anon_pat(q["pats"][0]), anon_pat(q["pats"][1])))
             missing = sorted((x, y) for x, y in alts if (y, x) not in alts)
+            # binders: alternatives of one arm that are mirror images must bind the same names to mirrored sub-patterns
+            for a in m["arms"]:
+                p = a["pat"]
+                if p.get("k") != "or":
+                    continue
+                prs = [(q["pats"][0], q["pats"][1]) for q in p["pats"] if q.get("k") == "tuple" and len(q["pats"]) == 2]
+                for (a0, a1) in prs:
+                    for (b0, b1) in prs:
+                        if (anon_pat(b0), anon_pat(b1)) == (anon_pat(a1), anon_pat(a0)) and (a0 is not b0):
+                            if (anon_pat(b0, True), anon_pat(b1, True)) != (anon_pat(a1, True), anon_pat(a0, True)):
+                                missing.append(("binding of (%s, %s)" % (anon_pat(a0, True), anon_pat(a1, True)), "its mirror binds (%s, %s)" % (anon_pat(b0, True), anon_pat(b1, True))))
             n3 += 1
             rep.ob("C09.D3", "cases-closed-under-swap:%s#%d" % (h["fn"], k_in), not missing,
                    "%d pattern alternatives, closed under operand swap" % len(alts) if not missing else
+                   ("the two mirror-image alternatives of one arm bind their variable to different sides (%s; %s): the value used depends on which subschema comes first" % missing[0]) if missing[0][0].startswith("binding of") else
                    "the case (%s, %s) is handled but its mirror image (%s, %s) is not: the result depends on which subschema comes first" % (missing[0][0], missing[0][1], missing[0][1], missing[0][0]), m.get("sp"))
             k_in += 1
     rep.floor("C09.D3", "symmetric case analyses over two operands", n3, 18)
@@ -360,7 +389,7 @@ def run_d4(facts, rep, tier):
 
 
 TYPE_KINDS = {"Null": {"null"}, "Boolean": {"bool"}, "Object": {"object"}, "Array": {"array"}, "String": {"string"},
-              "Number": {"u64", "neg", "float"}, "Integer": {"u64", "neg"}}
+              "Number": {"u64", "big", "neg", "float"}, "Integer": {"u64", "big", "neg"}}
 
 
 def run_d5(facts, rep, tier):
@@ -455,3 +484,33 @@ def run_d6(facts, rep, tier):
                         rep.ob("C09.D6", "set-direction:%s/%s" % (h["fn"], tag.strip("~")), ok, "%s of the two sides (%s)" % (n["name"], why) if ok else
                                "`%s` of `%s` and `%s`: %s (`%s`)" % (n["name"], r0[:40], r1[:40], why, want), n.get("sp"))
     rep.floor("C09.D6", "keyword combinations in binary merges", n6, 7)
+
+
+def run_d7(facts, rep, tier):
+    c = facts.impl
+    n7 = 0
+    for h in c.user_fns():
+        ins = c.fns.get(h["fn"], {}).get("inputs", [])
+        if len(ins) < 2 or ins[0] != ins[1] or "schema" not in ins[0].lower():
+            continue
+        cn = None
+        k_in = 0
+        for n, _ in walk(h["body"]):
+            if n.get("k") not in ("call", "mcall") or len(n.get("args", [])) < 2:
+                continue
+            cn = cn or PCanon(c, h, 3)
+            args = [cn.r(a) for a in (([n["recv"]] if n.get("k") == "mcall" else []) + list(n["args"]))]
+            s0 = sorted(a.replace("$P0", "$X") for a in args if "$P0" in a and "$P1" not in a)
+            s1 = sorted(a.replace("$P1", "$X") for a in args if "$P1" in a and "$P0" not in a)
+            if not s0 or not s1:
+                continue
+            simple = re.compile(r"\$X(~Some)?\.\w+(\.(as_ref|as_deref|as_deref_mut|as_mut|clone|cloned|copied|iter)\(\))*")
+            if not all(simple.fullmatch(x) for x in s0 + s1):
+                continue  # not a member-by-member call (e.g. a recursion over one operand's parts)
+            n7 += 1
+            ok = s0 == s1
+            rep.ob("C09.D7", "operands-balanced:%s#%d" % (h["fn"], k_in), ok, "%s(..): the same members of both operands" % (n.get("fn") or n.get("name") or "?").split("::")[-1] if ok else
+                   "`%s` is handed %s of the first operand but %s of the second: one operand's member is ignored (or used twice), so the result depends on which subschema comes first and a constraint of one side is lost" % (
+                       (n.get("fn") or n.get("name") or "?").split("::")[-1], [x.replace("$X", "a") for x in s0], [x.replace("$X", "b") for x in s1]), n.get("sp"))
+            k_in += 1
+    rep.floor("C09.D7", "calls handed members of both operands", n7, 8)
